@@ -180,6 +180,7 @@ def build_plan(choice: Choice, tier: str, family: str):
             call["feedback"] = d(6, "feedback") == 5
         calls.append(call)
     p["calls"] = calls
+    p["verbose"] = d(8, "verbose") == 7     # the pool's information messages switched on
     p["functor_pause"] = d(3, "functor.pause")      # 0 none, 1 yield, 2 defer on some items
     # a functor that uses a short-lived child process of its own for some items (a helper process, a nested map)
     p["functor_child"] = d(12, "functor.child") == 11
@@ -249,6 +250,25 @@ def scenario(k: Kernel, plan, obs):
 
         def get_context(self, method=None):
             return ctx
+
+        # module-level constructors belong to the default context, which is the simulated one
+        def Queue(self, maxsize=0):
+            return ctx.Queue(maxsize)
+
+        def SimpleQueue(self):
+            return ctx.SimpleQueue()
+
+        def Lock(self):
+            return ctx.Lock()
+
+        def RLock(self):
+            return ctx.RLock()
+
+        def Event(self):
+            return ctx.Event()
+
+        def Manager(self):
+            return ctx.Manager()
 
         def __getattr__(self, name):
             import multiprocessing as _mp
@@ -325,6 +345,11 @@ def scenario(k: Kernel, plan, obs):
           "results_queue_maxsize": plan["rq_max"]}
     if plan.get("join_timeout"):
         kw["join_timeout"] = plan["join_timeout"]
+    if plan.get("verbose"):
+        # information messages on: whatever the pool prints goes nowhere (this process is the private child of one run)
+        kw["verbose"] = True
+        import sys as _sys
+        _sys.stdout = _sys.stderr = open(os.devnull, "w")
     if plan["factory"]:
         pool = FactoryFunctorPool(plan["workers"], Factory(), **kw)
     else:
